@@ -44,7 +44,8 @@ REQUIRED = ["ops_executed", "rechecks", "handle_reads", "node_writes", "detach_n
             "detach_branch", "detach_compartment", "tree_copies", "independence_probes",
             "slices_checked", "index_errors_checked", "branch_segments_checked",
             "tree_segments_checked", "adjacency_checked", "pid_writes",
-            "worlds_with_other_column_dtypes", "relatives_checked", "mixed_owner_containers"]
+            "worlds_with_other_column_dtypes", "relatives_checked", "mixed_owner_containers",
+            "views_built_by_caller", "views_built_from_a_range"]
 FLOOR = {"quick": 250, "thorough": 5000}
 SHARDS = {"quick": 8, "thorough": 16}
 
@@ -70,7 +71,7 @@ def _need(cond, mech, detail):
 class World:
     def __init__(self, ctx, spec):
         self.ctx = ctx
-        self.tree = G.build(spec)
+        self.tree = G.build(spec, share_ok=False)  # (a write to one column must not hit another)
         self.cols = {k: np.array(v, copy=True) for k, v in self.tree.ndata.items()}
         self.n = len(self.cols["id"])
         self.ch = topo.children_lists(self.cols["pid"])
@@ -202,6 +203,21 @@ def _run_history(ctx, case):
             W.free.pop(int(rng.integers(0, len(W.free))))
         W.free.append((kind, obj, cols, list(L)))
 
+    def caller_view(kind, L):
+        """The view over node sequence L built by the caller, who holds the sequence as a list,
+        tuple, array or (for a run of consecutive ids) a range."""
+        run_ = len(L) >= 2 and all(L[j_ + 1] == L[j_] + 1 for j_ in range(len(L) - 1))
+        forms = ["list", "tuple", "array", "array64"] + (["range", "range", "range"] if run_ else [])
+        form = forms[int(rng.integers(0, len(forms)))]
+        idx = {"list": lambda: list(L), "tuple": lambda: tuple(L),
+               "array": lambda: np.array(L, dtype=np.int32),
+               "array64": lambda: np.array(L, dtype=np.int64),
+               "range": lambda: range(L[0], L[-1] + 1)}[form]()
+        ctx.count("views_built_by_caller")
+        if form == "range":
+            ctx.count("views_built_from_a_range")
+        return (Tree.Path if kind == "path" else Tree.Branch)(t, idx)
+
     ops = ["node", "node", "write", "write", "write", "index", "slice", "col", "relatives",
            "path", "branch", "comp", "tree_segments", "adjacency", "detach_node", "detach_path",
            "detach_branch", "detach_comp", "copy", "write_free", "write_free", "reparent",
@@ -313,6 +329,11 @@ def _run_history(ctx, case):
             L = src[int(rng.integers(0, len(src)))]
             obj = lib.get(L)
             _need(obj is not None, "view-missing", f"no {op} with nodes {L[:8]} returned")
+            if rng.random() < 0.35:
+                if op == "path" and rng.random() < 0.4 and n >= 3:  # any run of consecutive ids
+                    a_ = int(rng.integers(0, n - 1))
+                    L = tuple(range(a_, int(rng.integers(a_ + 2, n + 1))))
+                obj = caller_view(op, L)
             W.view_check(op, obj, L)
             W.view_deep(op, obj, L, rng)
             add_handle(op, obj, L)
@@ -402,6 +423,11 @@ def _run_history(ctx, case):
                     continue
                 L = src[int(rng.integers(0, len(src)))]
                 obj, kind = lib[L], op.split("_")[1]
+                if rng.random() < 0.5:
+                    if kind == "path" and rng.random() < 0.5 and n >= 3:
+                        a_ = int(rng.integers(0, n - 1))
+                        L = tuple(range(a_, int(rng.integers(a_ + 2, n + 1))))
+                    obj = caller_view(kind, L)
             d = obj.detach()
             m = len(L)
             cols = {k: np.array(v[list(L)], copy=True) for k, v in W.cols.items()}
